@@ -2120,10 +2120,10 @@ func BuildHandoverNotify(amfUeNgapID int64, ranUeNgapID int64) (pdu ngapType.NGA
 	userLocationInformation.UserLocationInformationEUTRA = new(ngapType.UserLocationInformationEUTRA)
 
 	userLocationInformationEUTRA := userLocationInformation.UserLocationInformationEUTRA
-	userLocationInformationEUTRA.TAI.PLMNIdentity.Value = aper.OctetString("\x30\x33\x99")
+	userLocationInformationEUTRA.TAI.PLMNIdentity.Value = TestPlmn.Value
 	userLocationInformationEUTRA.TAI.TAC.Value = aper.OctetString("\x30\x33\x99")
 
-	userLocationInformationEUTRA.EUTRACGI.PLMNIdentity.Value = aper.OctetString("\x30\x33\x99")
+	userLocationInformationEUTRA.EUTRACGI.PLMNIdentity.Value = TestPlmn.Value
 	userLocationInformationEUTRA.EUTRACGI.EUTRACellIdentity.Value = aper.BitString{
 		Bytes:     []byte{0x24, 0x16, 0x08, 0xFF},
 		BitLength: 28,
